@@ -39,6 +39,9 @@
 //! - Malkov & Yashunin, "Efficient and robust approximate nearest neighbor
 //!   search using Hierarchical Navigable Small World graphs" (2018)
 
+#[cfg(grafeo_verif)]
+use grafeo_common::verif::fake_std as std;
+
 use super::compute_distance;
 use crate::index::vector::HnswConfig;
 use grafeo_common::types::NodeId;
